@@ -7,6 +7,7 @@ LEVEL = "exploration"
 
 def tasks(tier):
     return (other_tasks("contracts.determinism_bounded", "C04", "bounded") + other_tasks("contracts.dataplane_bounded", "C04", "bounded")
+            + other_tasks("contracts.faults_bounded", "C04", "bounded")
             + contract_tasks("contracts.dataplane", "C04", tier=tier)
             + contract_tasks("contracts.connect", "C04", tier=tier)
             + contract_tasks("contracts.sim_process", "C04", tier=tier, names=["WaitForDependencies"]))
@@ -18,7 +19,7 @@ ASSUMPTIONS = ["simulators are deterministic functions of (time, inputs) and in-
                "for the function contracts: see C01/C03 (cache entries in time order, assumed contracts of asyncio)"]
 NOT_COVERED = ["the statement itself is a relation between two whole runs (2-safety over all interleavings): no function contract expresses it; it "
                "is explored on a bounded scenario family only -- nothing is counted as proved for it",
-               "remote transport (a JSON round trip through mosaik_api_v3, external) is not varied",
+               "remote transport is varied only for one simulator at a time on 1 (thorough: 6) scenarios in the baseline configuration",
                "pen-and-paper composition (not mechanised): the (time, inputs) sequence of a simulator is determined by the scenario and the "
                "simulators' replies because (i) a step begins only when its inputs are complete by tiered time (C01), (ii) steps happen at exactly "
                "the scheduled times, once, in increasing order (C02), (iii) the inputs of a step are a function of the predecessors' outputs up "
